@@ -109,7 +109,7 @@ func pickFormat(rd *core.Rand) (Format, int) {
 
 func runGenerated(r *core.Run) {
 	rd := r.Rand.Fork() // Fork: streams of adjacent seeds of core.Rand are shifted copies of each other
-	n := r.N(350, 12000)
+	n := r.N(350, 8000)
 	for i := 0; i < n; i++ {
 		f, cache := pickFormat(rd)
 		ln := 4 + rd.Intn(37)
